@@ -1,5 +1,6 @@
 """Build configurations -> engines -> known findings -> evidence. See ../check."""
 import hashlib
+import re
 import json
 import os
 import shutil
@@ -340,7 +341,7 @@ def run_probe(binp, force=0, long=False):
     return json.loads(p.stdout.strip().splitlines()[-1])
 
 
-MACHINES = {  # substrings of core::any::type_name of the Machine the dispatch macros hand out
+MACHINES = {  # fallback only: substrings of core::any::type_name of the Machine the dispatch macros hand out
     "sse2": "NoS3, ppv_lite86::x86_64::NoS4",
     "ssse3": "YesS3, ppv_lite86::x86_64::NoS4",
     "sse41": "YesS3, ppv_lite86::x86_64::YesS4",
@@ -348,6 +349,7 @@ MACHINES = {  # substrings of core::any::type_name of the Machine the dispatch m
     "avx2": "Avx2Machine",
     "generic": "GenericMachine",
 }
+X86_NAMES = {}  # type names of the x86 machines as the tree under test spells them (reported by the probe)
 
 
 def expected_machine(features, rustflags, forced):
@@ -363,11 +365,26 @@ def expected_machine(features, rustflags, forced):
     return "sse2"
 
 
+def _strip_ni(t):
+    """the AES-NI marker parameter of the machine types is not part of the selection this oracle checks"""
+    return re.sub(r"[A-Za-z0-9_:]*(YesNI|NoNI)", "NI", t)
+
+
 def machine_violation(prefix, point, r, features, rustflags, forced, viol):
     """the configuration must really run the implementation it is meant to select"""
     want = expected_machine(features, rustflags, forced)
     got = r.get("machine", "")
-    if got and MACHINES[want] not in got:
+    if r.get("machine_names"):
+        X86_NAMES.update(r["machine_names"])
+    if not got:
+        return
+    if want == "generic":
+        wrong = _strip_ni(got) in [_strip_ni(v) for v in X86_NAMES.values()] if X86_NAMES else MACHINES["generic"] not in got
+    elif r.get("machine_names"):
+        wrong = _strip_ni(got) != _strip_ni(r["machine_names"][want])
+    else:
+        wrong = MACHINES[want] not in got
+    if wrong:
         viol.append(dict(sig="%s:%s:selects-wrong-implementation" % (prefix, point), detail="this configuration is meant to run the %s implementation but the dispatch macros hand out %s" % (want, got), replay=dict(point=point, features=features), count=1))
 
 
